@@ -90,7 +90,10 @@ public:
 
     auto ret = UNSAFE_unverified();
     if (ret != nullptr) {
-      size_t bytes = sizeof(T) * count;
+      // The caller gets a raw pointer to count elements of the pointed-to type
+      // (sizeof(T) would be the size of the pointer itself)
+      using T_El = detail::valid_array_el_t<std::remove_cv_t<T_Pointed>>;
+      size_t bytes = detail::checked_range_size(count, sizeof(T_El));
       detail::check_range_doesnt_cross_app_sbx_boundary<T_Sbx>(ret, bytes);
     }
     return ret;
